@@ -138,6 +138,7 @@ type obs struct {
 	Removal []string `json:"removal"`
 	Tag     string   `json:"tag"`
 	Canary  bool     `json:"canary_ok"`
+	ReplyOK bool     `json:"reply_ok"` // every reply of the handler has arrived at its parent
 	Note    string   `json:"note,omitempty"`
 	// for the cause of a canary failure: genuine trees (1..3) whose stored copy differs
 	// from the genuine tree, and genuine trees that are requested but not received
@@ -199,6 +200,9 @@ func (p *proto) handlePing(m struct {
 	w.delivs = append(w.delivs, fmt.Sprintf("(%s, %d)", w.tokCoq(p.Token()), w.nodeAbs(m.TreeNode.ID)))
 	w.mu.Unlock()
 	if m.Reply {
+		w.mu.Lock()
+		w.replies++
+		w.mu.Unlock()
 		return p.SendToParent(&Pong{N: m.N})
 	}
 	return nil
@@ -233,6 +237,7 @@ type world struct {
 	sends     []string
 	delivs    []string
 	pongs     int
+	replies   int // replies the protocol's handler sent to its parent
 	markers   map[int]chan struct{}
 	nextMark  int
 	treeSet   int64
@@ -606,6 +611,9 @@ func (w *world) recordAt(n int, p *peerRec) {
 		if m.Roster != nil {
 			ro = w.rosterAbsOf(m.Roster.ID)
 		}
+		if m.TreeMarshal != nil && !w.replyMatchesStore(m.TreeMarshal, m.Roster) {
+			root = 4998 // not the tree the server holds
+		}
 		rec(fmt.Sprintf("RRespTree %d %d %d", tr, ro, root))
 		return nil
 	})
@@ -614,6 +622,9 @@ func (w *world) recordAt(n int, p *peerRec) {
 		root := 4999
 		if len(m.Children) > 0 {
 			root = w.nodeAbs(m.Children[0].TreeNodeID)
+		}
+		if !w.replyMatchesStore(m, nil) {
+			root = 4998
 		}
 		rec(fmt.Sprintf("RTreeMarshal %d %d %d", w.treeAbsOf(m.TreeID), w.rosterAbsOf(m.RosterID), root))
 		return nil
@@ -625,7 +636,18 @@ func (w *world) recordAt(n int, p *peerRec) {
 	})
 	p.r.RegisterProcessorFunc(onet.SendRosterMsgID, func(e *network.Envelope) error {
 		m := e.Msg.(*onet.Roster)
-		rec(fmt.Sprintf("RRoster %d", w.rosterAbsOf(m.ID)))
+		id := w.rosterAbsOf(m.ID)
+		if id == 1 {
+			// the genuine roster id: the members must be the genuine members
+			ok := len(m.List) == len(w.roster.List)
+			for i := 0; ok && i < len(m.List); i++ {
+				ok = m.List[i].ID.Equal(w.roster.List[i].ID)
+			}
+			if !ok {
+				id = 4998
+			}
+		}
+		rec(fmt.Sprintf("RRoster %d", id))
 		return nil
 	})
 	p.r.RegisterProcessorFunc(onet.ProtocolMsgID, func(e *network.Envelope) error {
@@ -644,6 +666,57 @@ func (w *world) recordAt(n int, p *peerRec) {
 		}
 		return nil
 	})
+}
+
+func (w *world) srvAbs(si *network.ServerIdentity) int {
+	w.mu.Lock()
+	defer w.mu.Unlock()
+	if si != nil {
+		for n, id := range w.ids {
+			if id.ID.Equal(si.ID) {
+				return n
+			}
+		}
+	}
+	return 4999
+}
+
+// a tree description / roster the server sends is compared with what the server holds:
+// a reply that differs from the stored tree is recorded under an unknown root / id
+func dfsTM(tm *onet.TreeMarshal, out *[]string) {
+	*out = append(*out, tm.TreeNodeID.String()+"/"+tm.ServerIdentityID.String())
+	for _, c := range tm.Children {
+		dfsTM(c, out)
+	}
+}
+
+func (w *world) replyMatchesStore(tm *onet.TreeMarshal, ro *onet.Roster) bool {
+	if !w.ov.VerifLocksFree()["treeStorage"] {
+		return true // cannot look: the leaked mutex is reported by itself
+	}
+	t := w.ov.VerifTree(tm.TreeID)
+	if t == nil || len(tm.Children) != 1 {
+		return false
+	}
+	var a, b []string
+	dfsTM(tm.Children[0], &a)
+	t.Root.Visit(0, func(d int, tn *onet.TreeNode) {
+		b = append(b, tn.ID.String()+"/"+tn.ServerIdentity.ID.String())
+	})
+	if strings.Join(a, " ") != strings.Join(b, " ") || !tm.RosterID.Equal(t.Roster.ID) {
+		return false
+	}
+	if ro != nil {
+		if !ro.ID.Equal(t.Roster.ID) || len(ro.List) != len(t.Roster.List) {
+			return false
+		}
+		for i := range ro.List {
+			if !ro.List[i].ID.Equal(t.Roster.List[i].ID) {
+				return false
+			}
+		}
+	}
+	return true
 }
 
 func (w *world) treeAbsOf(id onet.TreeID) int {
@@ -760,8 +833,13 @@ func (w *world) snapshot(o *obs) {
 			o.Locks = append(o.Locks, i)
 		}
 	}
-	w.drainPeers()
+	if !w.drainPeers() && o.Out == 0 {
+		// the server cannot reach a listening peer any more: it has stopped serving
+		o.Out = 2
+		o.Note += " marker to a peer not delivered"
+	}
 	w.mu.Lock()
+	o.ReplyOK = w.pongs == w.replies
 	o.Sends = append([]string(nil), w.sends...)
 	o.Delivs = append([]string(nil), w.delivs...)
 	w.sends, w.delivs = nil, nil
@@ -773,14 +851,18 @@ func (w *world) snapshot(o *obs) {
 			id := w.treeOf(n)
 			code := w.ov.VerifTreeState(id)
 			ro, root := 0, 0
+			var nodes []string
 			if code == 2 {
 				t := w.ov.VerifTree(id)
 				if t.Roster != nil {
 					ro = w.rosterAbsOf(t.Roster.ID)
 				}
 				root = w.nodeAbs(t.Root.ID)
+				t.Root.Visit(0, func(d int, tn *onet.TreeNode) {
+					nodes = append(nodes, fmt.Sprintf("(%d, %d)", w.nodeAbs(tn.ID), w.srvAbs(tn.ServerIdentity)))
+				})
 			}
-			o.Store = append(o.Store, fmt.Sprintf("mkSt %d %d %d %d", n, code, ro, root))
+			o.Store = append(o.Store, fmt.Sprintf("mkSt %d %d %d %d %s", n, code, ro, root, lib.List(nodes)))
 			if n >= 1 && n <= 3 {
 				if code == 1 {
 					o.Awaited = append(o.Awaited, n)
@@ -912,13 +994,17 @@ func (w *world) exec(i int, op jop, prior []jop) (o *obs) {
 			ch := make(chan struct{})
 			w.markers[k] = ch
 			w.mu.Unlock()
+			sendErr := false
 			if _, err := p.r.Send(w.x.ServerIdentity, msg, &Marker{N: k}); err != nil {
-				o.Note = "send: " + err.Error()
+				// the server refuses / has dropped the connection of a listening peer
+				o.Note = "noconn: " + err.Error()
+				o.Out = 2
+				sendErr = true
 			}
 			// the marker follows the message on the same connection: it is dispatched
 			// when Process has returned. Never returned = some overlay mutex is held.
 		waitMarker:
-			for tries := 0; ; tries++ {
+			for tries := 0; !sendErr; tries++ {
 				select {
 				case <-ch:
 					break waitMarker
@@ -1224,8 +1310,8 @@ func obsTerm(o *obs) string {
 	if parked >= 0 {
 		pk = fmt.Sprintf("(Some %d)", parked)
 	}
-	return fmt.Sprintf("(mkObs %d %s %s %s %s %s %s %d %s)", o.Out, lib.List(nl), lib.List(o.Sends), lib.List(o.Delivs),
-		lib.List(st), lib.List(o.Insts), pk, o.PTM, lib.List(o.Removal))
+	return fmt.Sprintf("(mkObs %d %s %s %s %s %s %s %d %s %s)", o.Out, lib.List(nl), lib.List(o.Sends), lib.List(o.Delivs),
+		lib.List(st), lib.List(o.Insts), pk, o.PTM, lib.List(o.Removal), lib.Bool(o.ReplyOK || o.Out == 1))
 }
 
 // ---- worker (sub-process) -----------------------------------------------------------------
@@ -1314,7 +1400,7 @@ func runCase(in *input, emit func(workerOut)) {
 		if o.Out == 1 || (in.Net && o.Out == 2) {
 			break
 		}
-		if !in.Continue && (o.Out != 0 || len(o.Locks) > 0 || (op.Canary != "" && !o.Canary)) {
+		if !in.Continue && (o.Out != 0 || len(o.Locks) > 0 || !o.ReplyOK || (op.Canary != "" && !o.Canary)) {
 			break
 		}
 	}
@@ -1407,6 +1493,9 @@ type raceOut struct {
 	Hit         bool   `json:"hit"`          // the delivery reached the wake-up
 	DoneBlocked bool   `json:"done_blocked"` // the closer was still waiting after 300 ms (expected: it needs the mutex)
 	Served      bool   `json:"served"`
+	Hung        bool   `json:"hung"`          // the closer, the delivery or a goroutine never returned
+	Cut         string `json:"cut,omitempty"` // the stage at which the scenario stopped being possible
+	Started     bool   `json:"started"`       // the server was up and the scenario began
 	Note        string `json:"note,omitempty"`
 }
 
@@ -1446,6 +1535,7 @@ func runRace(in *input, emit func(workerOut)) {
 		return
 	}
 	w.activate()
+	res.Started = true
 	canary := legitPing(1, 90, "pingreply")
 	canary.Canary, canary.XTok, canary.XFrom = "run", legitTok(1, 90), 1
 	in.Ops = []jop{legitPing(1, 11, "ping"), legitPing(2, 12, "ping"), canary}
@@ -1458,15 +1548,17 @@ func runRace(in *input, emit func(workerOut)) {
 	target := w.tok(legitTok(tree, round)).ID()
 	// (1) a legitimate run with a live instance (done / close), or a parked message (flush)
 	first := legitPing(tree, round, "ping")
-	if !waitCh(w.netSend(first.P, first.M), longWait) {
-		res.Note = "first message not processed"
+	// from here on every step is one the unchanged server performs: a step that does not
+	// happen within the deadline is an observation (cut), not a reason to drop the case
+	if !waitCh(w.netSend(first.P, first.M), 3*longWait) {
+		res.Cut, res.Hung = "first-message-not-processed", true
 		finish()
-		return
+		os.Exit(0)
 	}
 	if s := w.settle(); s != "" {
-		res.Note = s
+		res.Cut, res.Hung, res.Note = "first-message-not-settled", true, s
 		finish()
-		return
+		os.Exit(0)
 	}
 	// (2) hold the next delivery to that instance at the wake-up
 	gate := w.sched.Block("tni.notify", 1, func(args []interface{}) bool {
@@ -1480,11 +1572,13 @@ func runRace(in *input, emit func(workerOut)) {
 	} else {
 		sent = w.netSend(first.P, first.M)
 	}
-	if !gate.WaitHit(longWait) {
+	if !gate.WaitHit(3 * longWait) {
+		// on the unchanged tree the wake-up is always reached: the legitimate message was
+		// not handed to the instance (served = false)
 		gate.Release()
-		res.Note = "the delivery did not reach the wake-up (schedule point tni.notify missing?)"
+		res.Cut = "delivery-did-not-reach-the-wake-up"
 		finish()
-		return
+		os.Exit(0)
 	}
 	res.Hit = true
 	// (3) close the instance meanwhile
@@ -1503,15 +1597,18 @@ func runRace(in *input, emit func(workerOut)) {
 	res.DoneBlocked = !waitCh(closed, 300*time.Millisecond)
 	// (4) let the delivery go on
 	gate.Release()
-	if !waitCh(closed, longWait) {
+	if !waitCh(closed, 3*longWait) {
+		res.Hung = true
 		res.Note = "the closer never returned"
 	}
-	if !waitCh(sent, longWait) {
+	if !waitCh(sent, 3*longWait) {
+		res.Hung = true
 		res.Note += " the delivery never returned"
 	}
 	// the flush goroutine (variant flush) and the instance readers run to quiescence: a
 	// panic in one of them ends the process here
 	if s := w.settle(); s != "" {
+		res.Hung = true
 		res.Note += " " + s
 	}
 	// (5) the server still serves
@@ -1519,11 +1616,17 @@ func runRace(in *input, emit func(workerOut)) {
 		res.Served = true // the overlay has been closed by the harness itself
 	} else {
 		o := w.exec(2, canary, in.Ops[:2])
-		res.Served = canaryServed(canary, o, map[string]bool{})
 		for _, d := range o.Delivs {
 			if d == fmt.Sprintf("(%s, %d)", tokTerm(canary.XTok), canary.XFrom) {
 				res.Served = true
 			}
+		}
+		if o.Out == 2 {
+			res.Hung = true
+		}
+		if !o.ReplyOK || len(o.Locks) > 0 {
+			res.Served = false
+			res.Note += fmt.Sprintf(" canary: reply_ok=%v locks=%v", o.ReplyOK, o.Locks)
 		}
 	}
 	finish()
@@ -1648,11 +1751,23 @@ func run(raw json.RawMessage) lib.Case {
 	if in.Net {
 		mode = "net"
 	}
+	timedOut := fail == "worker timed out"
+	abnormal := func(class string, crashed, hung bool, what string) lib.Case {
+		return lib.Case{Coq: fmt.Sprintf("mkAbnormal %s %s", lib.Bool(crashed), lib.Bool(hung)), Class: class,
+			Obs: map[string]interface{}{"what": what, "process": trace, "worker": extra}, Nontrivial: true, Key: class + what}
+	}
 	if in.Kind == "f26-stress" {
 		aborted := died && strings.Contains(trace, "concurrent map")
 		freeScans := strings.Contains(extra, "scans-with-instancesLock-free=") && !strings.HasSuffix(extra, "free=0")
-		if died && !aborted {
-			return lib.Case{Discard: true, Class: "f26-stress", Obs: trace}
+		switch {
+		case died && !aborted:
+			// the process died, but not of the recorded race: a crash of its own
+			return abnormal("f26-stress/died-otherwise", true, false, "process died during the stress run")
+		case timedOut:
+			return abnormal("f26-stress/hung", false, true, "stress run did not finish")
+		case fail != "" && extra == "":
+			// the server could not even be started: nothing has been observed
+			return lib.Case{Discard: true, Class: "f26-stress", Obs: fail}
 		}
 		coq := fmt.Sprintf("mkStress %s %s", lib.Bool(aborted), lib.Bool(freeScans))
 		return lib.Case{Coq: coq, Class: "f26-stress/" + map[bool]string{true: "aborted", false: "survived"}[aborted],
@@ -1662,33 +1777,43 @@ func run(raw json.RawMessage) lib.Case {
 		var ro raceOut
 		json.Unmarshal([]byte(extra), &ro)
 		class := "race-deliver-done/" + in.Variant
-		if !died && !ro.Hit {
-			// the interleaving could not be forced (schedule point absent, scenario not reached)
+		if !died && !timedOut && !ro.Started {
+			// the server could not even be started: nothing has been observed
 			return lib.Case{Discard: true, Class: class, Obs: ro.Note + " " + fail}
 		}
 		variant := map[string]int{"done": 0, "close": 1, "flush": 2}[in.Variant]
+		hung := ro.Hung || timedOut
 		verdict := "ok"
-		if died {
+		switch {
+		case died:
 			verdict = "crash"
-		} else if !ro.Served {
+		case hung:
+			verdict = "hung"
+		case !ro.Served:
 			verdict = "unserved"
 		}
-		coq := fmt.Sprintf("mkRace %d %s %s", variant, lib.Bool(died), lib.Bool(ro.Served))
+		if ro.Cut != "" {
+			verdict += "+cut:" + ro.Cut
+		}
+		coq := fmt.Sprintf("mkRace %d %s %s %s", variant, lib.Bool(died), lib.Bool(hung), lib.Bool(ro.Served))
 		return lib.Case{Coq: coq, Class: class + "/" + verdict,
 			Obs: map[string]interface{}{"process": trace, "worker": ro}, Nontrivial: true, Key: "race-" + in.Variant + verdict}
 	}
-	if fail != "" && len(os_) == 0 {
+	if fail != "" && !timedOut && len(os_) == 0 {
+		// bad input / the server could not be started: nothing has been observed
 		return lib.Case{Discard: true, Class: in.State + "/" + mode, Obs: fail}
 	}
 	n := len(os_)
-	if died {
-		// the operation after the last complete observation killed the process
+	if died || timedOut {
+		// the operation after the last complete observation killed (or hung) the process
 		if n >= len(in.Ops) {
-			return lib.Case{Discard: true, Class: in.State + "/" + mode, Obs: "worker died after the case: " + trace}
+			// ... after the last operation: a goroutine the history left behind
+			return abnormal(fmt.Sprintf("%s/%s/after-the-history", in.State, mode), died, timedOut,
+				"the process died / hung after the last operation of the history")
 		}
-		o := &obs{Index: n, Out: 1, Parked: -1, Note: trace, Tag: opTag(in.Ops[n], in.Ops[:n], nil)}
-		if in.Ops[n].K == "recv" && in.Ops[n].M.T == "reqroster" {
-			o.Tag = "reqroster:while-requested" // only reachable with a nil entry in the store
+		o := &obs{Index: n, Out: 1, Parked: -1, Note: trace, ReplyOK: true, Tag: opTag(in.Ops[n], in.Ops[:n], nil)}
+		if timedOut {
+			o.Out, o.Note = 2, "no observation within the worker's deadline"
 		}
 		os_ = append(os_, o)
 		n++
@@ -1700,8 +1825,8 @@ func run(raw json.RawMessage) lib.Case {
 		o := os_[i]
 		nf := op.K == "recv" && op.M.T == "reqroster" && o.Out == 1
 		full := "true"
-		if o.Out == 1 && died {
-			full = "false" // no snapshot after the death of the process
+		if (died || timedOut) && i == n-1 {
+			full = "false" // no snapshot after the death / hang of the process
 		}
 		opTerms = append(opTerms, fmt.Sprintf("(%s, %s, %s)", opTerm(op, nf), expectTerm(op), full))
 		obsTerms = append(obsTerms, obsTerm(o))
@@ -1709,8 +1834,16 @@ func run(raw json.RawMessage) lib.Case {
 			switch {
 			case o.Out == 1:
 				verdict = "crash@" + o.Tag
+			case o.Out == 2 && strings.HasPrefix(o.Note, "noconn"):
+				verdict = "noconn@" + o.Tag // the server refuses the connection of a listening peer
+			case o.Out == 2 && strings.Contains(o.Note, "marker to a peer not delivered"):
+				verdict = "mute@" + o.Tag // the server cannot reach a listening peer
+			case o.Out == 2 && len(o.Locks) == 0:
+				verdict = "hang@" + o.Tag // did not return, although no overlay mutex is held
 			case o.Out == 2 || len(o.Locks) > 0:
 				verdict = "leak@" + o.Tag
+			case !o.ReplyOK:
+				verdict = "noreply@" + o.Tag // the handler's reply did not reach its parent
 			case op.Canary != "" && !o.Canary:
 				verdict = fmt.Sprintf("canary-%s%d:%s", op.Canary, canaryTree(op), cause(op, o))
 			}
